@@ -23,7 +23,7 @@ def main():
     demo = os.path.join(seed, "demo.py")
     assert sh(f"git -C {REPO} status --porcelain").stdout.strip() == "", "/repo not clean"
     res = {"seed": seed}
-    r0 = sh(f"PYTHONPATH={REPO}/src /venv/bin/python {demo}", cwd="/tmp")
+    r0 = sh(f"PYTHONPATH={REPO}/src /venv/bin/python {demo} {REPO}", cwd="/tmp")
     res["demo_unpatched_exit"] = r0.returncode
     a = sh(f"git -C {REPO} apply {patch}")
     if a.returncode != 0:
@@ -33,7 +33,7 @@ def main():
         sh(f"git -C {REPO} reset -q --hard HEAD")
         return 2
     try:
-        r1 = sh(f"PYTHONPATH={REPO}/src /venv/bin/python {demo}", cwd="/tmp")
+        r1 = sh(f"PYTHONPATH={REPO}/src /venv/bin/python {demo} {REPO}", cwd="/tmp")
         res["demo_patched_exit"] = r1.returncode
         res["demo_patched_tail"] = (r1.stdout + r1.stderr)[-300:]
         if suite:
